@@ -1139,6 +1139,9 @@ def raw_views(F):
             ch = n.get("ch") or []
             if len(ch) != 1:
                 continue
+            ctor = F.by_id.get(n.get("fid"))
+            if ctor is None or not ctor.get("params") or not ctor["params"][0].get("cty", "").rstrip().endswith("*"):
+                continue   # only constructions from a raw pointer are raw views (copies of views are not)
             a = A.strip(ch[0])
             if not isinstance(a, dict):
                 continue
@@ -1159,12 +1162,23 @@ def raw_views(F):
                     if args and const_of(args[0]) is not None and obj is not None:
                         k = const_of(args[0])
                         host = {"k": "CXXMemberCallExpr", "fn": "data", "ch": [{"k": "MemberExpr", "name": "data", "ch": [obj]}]}
-            if host is None:
-                continue
-            hn = A.strip(host)
+            hn = A.strip(host) if host is not None else None
             if not (isinstance(hn, dict) and hn.get("k") == "CXXMemberCallExpr" and A.short(hn.get("fn") or "data") == "data"):
+                # a raw view built from something else than <buffer>.data() [+ k]: cannot be bounded
+                view = sizes.get(str(n.get("clsargs")))
+                yield f, n, None, None, (view[0] if view else None), str(n.get("clsargs")), (view[1] if view else None), False
                 continue
             _, hobj, _ = A.call_parts(hn)
+            # <buffer>.tail<4>().data() and friends: offset of the sub-view inside the buffer
+            ho0 = A.strip(hobj)
+            if isinstance(ho0, dict) and ho0.get("k") == "CXXMemberCallExpr" and A.short(ho0.get("fn")) in BLOCKLIKE:
+                fnb, pobj, pargs = A.call_parts(ho0)
+                pd = A.strip(pobj).get("dim") if isinstance(A.strip(pobj), dict) else None
+                if pd and (pd[0] == 1 or pd[1] == 1):
+                    sub = subregion(A.short(fnb), ho0.get("targs") or [], pargs, pd[0], pd[1])
+                    if sub is not None:
+                        k = (k or 0) + sub[0] + sub[1]
+                        hobj = pobj
             ho = A.strip(hobj)
             hd = None
             if isinstance(ho, dict):
